@@ -513,6 +513,8 @@ type StepResult struct {
 
 // Writer executes write programs against a Conn.
 type Writer struct {
+	CloseStale       bool // RunProgram finally closes the writers that were left to the implicit close
+	stale            []io.WriteCloser
 	OversizeStreamed int // invalid requests "control payload over 125 bytes streamed into a NextWriter"
 	C                *ws.Conn
 	Cfg              Cfg
@@ -587,6 +589,9 @@ func (w *Writer) implicitClosed() {
 		// message counts as sent iff the transport shows it (judged by callers).
 		w.Sent[w.openIdx].Completed = true
 		w.Sent[w.openIdx].Err = nil
+		if w.CloseStale {
+			w.stale = append(w.stale, w.open)
+		}
 		w.open, w.openIdx = nil, -1
 	}
 }
@@ -831,6 +836,13 @@ func (w *Writer) RunProgram(prog []WStep) {
 	if w.open != nil {
 		w.CloseOpen()
 	}
+	// the application still holds the writers the library closed for it; closing one of them now
+	// is a message-level call like any other (it can only fail: the writer is closed)
+	for _, st := range w.stale {
+		w.begin(len(prog), "Close")
+		w.end(st.Close())
+	}
+	w.stale = nil
 }
 
 // ---------------------------------------------------------------- read programs
